@@ -4,7 +4,7 @@ W=$1
 S=$W/seed
 cd $W || exit 1
 export CARGO_NET_OFFLINE=true
-clean() { git checkout -q -- . ; git clean -fdq -e target -e seed ; }
+clean() { git reset -q ; git checkout -q -- . ; git clean -fdq -e target -e seed ; }
 run() { cargo test --offline 2>&1 | grep -E "^test result|FAILED|failed|error(\[|:)" | head -8 | tr '\n' ';'; }
 clean
 A=$(git apply --check $S/patch.diff 2>&1 && echo patch-ok)
